@@ -1,9 +1,10 @@
 import TracklibVerif.Lemmas.SimplifyVwAny
 import TracklibVerif.Lemmas.SimplifyVw
-/-! Visvalingam, **mixed columns** (some `'@aire'` entries numbers below ARGMIN's initial minimum, some infinite or NaN): when exactly the
+/-! Visvalingam, **mixed columns** (some `'@aire'` entries numbers below ARGMIN's initial minimum, some infinite — found since b728412 — or NaN — never found): when exactly the
 first observation survives. The entry of the first observation is NaN from the start and is never rewritten while ARGMIN answers an
 index >= 1 (the two neighbour updates write `id - 1 >= 1` and `id >= 1`); ARGMIN answers an index >= 1 exactly when it finds a minimum,
-i.e. when some entry is a number below its initial minimum (`Hit`); otherwise it answers its default 0, `NaN > eps` is False, and the
+i.e. when some entry is a number below its initial minimum or equal to it (`Hit`; `+inf` itself counts since b728412: only a column
+of NaN has no minimum); otherwise it answers its default 0, `NaN > eps` is False, and the
 first observation is removed. So the first observation is kept **iff every pass finds a minimum** (`AllHit`).
 No property of the scalar type is used. -/
 namespace TV.Simplify
@@ -14,8 +15,10 @@ variable {α : Type} [Add α] [Sub α] [Mul α] [Div α] [Neg α] [LT α] [Decid
 /-- the `'@aire'` entry of the first observation is NaN -/
 def FirstNaN (S : VState α) : Prop := ∃ p, S[0]? = some (p, none)
 
-/-- ARGMIN finds a minimum: some entry of the column is a number below its initial minimum -/
-def Hit (big : α) (S : VState α) : Prop := ∃ (j : Nat) (v : α), (S.map (·.2))[j]? = some (some v) ∧ v < big
+/-- ARGMIN finds a minimum: some entry of the column is a number below its initial minimum or — since b728412 — equal to it
+(`+inf`: an infinite area is found; only NaN is not) -/
+def Hit (big : α) (S : VState α) : Prop :=
+  ∃ (j : Nat) (v : α), (S.map (·.2))[j]? = some (some v) ∧ (v < big ∨ (v == big) = true)
 
 /-- every pass of the run (at most `fuel` passes from `S`) finds a minimum -/
 def AllHit (big eps2 : α) : Nat → VState α → Prop
@@ -27,8 +30,7 @@ def AllHit (big eps2 : α) : Nat → VState α → Prop
 
 theorem hit_argmin_pos (big : α) (S : VState α) (hf : FirstNaN S) (hh : Hit big S) : 0 < argmin big (S.map (·.2)) := by
   obtain ⟨j0, v0, a0, b0⟩ := hh
-  obtain ⟨j, v, ej, hj⟩ := argminLoop_hit (S.map (·.2)) 0 big 0 ⟨j0, v0, a0, b0⟩
-  have eid : argmin big (S.map (·.2)) = j := by unfold argmin; omega
+  obtain ⟨j, v, eid, hj⟩ := argmin_hit big (S.map (·.2)) ⟨j0, v0, a0, b0⟩
   rw [eid]
   cases j with
   | zero =>
@@ -70,7 +72,7 @@ theorem vwStep_nohit (big eps2 : α) (S S' : VState α) (hf : FirstNaN S) (hl : 
     (hs : vwStep big eps2 S = some S') : S'.map (·.1) = (S.map (·.1)).eraseIdx 0 := by
   obtain ⟨_, h2, _, _⟩ := vwStep_any big eps2 S S' hl hs
   obtain ⟨p, hp⟩ := hf
-  obtain ⟨S'', e1, e2⟩ := vwStep_sentinel big eps2 S h2 p hp (fun j v hj hlt => hh ⟨j, v, hj, hlt⟩)
+  obtain ⟨S'', e1, e2⟩ := vwStep_sentinel big eps2 S h2 p hp (fun j v hj => ⟨fun hlt => hh ⟨j, v, hj, Or.inl hlt⟩, fun he => hh ⟨j, v, hj, Or.inr he⟩⟩)
   rw [hs] at e1
   cases e1
   exact e2
